@@ -3,7 +3,11 @@
 package main
 
 import (
+	"sync/atomic"
+	"time"
+
 	"github.com/pingcap/failpoint"
+	"github.com/tikv/client-go/v2/txnkv/transaction"
 	"github.com/tikv/client-go/v2/verifx/vx"
 )
 
@@ -55,6 +59,31 @@ func c04Scenario(s shape, batch1 bool, faults []c03Fault, r *vx.Rand) {
 	w.Quiesce(scenarioTimeout)
 }
 
+// c04Heartbeat keeps a pessimistic transaction open over a few heart-beat periods: ManagedLockTTL is shortened to 40 ms,
+// so the ttlManager ticks every 20 ms of WALL clock (the one place where a scenario sleeps); the virtual clock moves in
+// between, then the transaction ends; a heart-beat after the end would show in the 25 ms that follow.
+func c04Heartbeat(s shape, r *vx.Rand) {
+	old := atomic.SwapUint64(&transaction.ManagedLockTTL, 40)
+	defer atomic.StoreUint64(&transaction.ManagedLockTTL, old)
+	s.pess = true
+	sr := startShape(s, r)
+	w := sr.w
+	defer w.Close()
+	if !sr.ok {
+		return
+	}
+	rec.Count("c04:heartbeat-scenario")
+	for i := 0; i < 3; i++ {
+		time.Sleep(25 * time.Millisecond)
+		w.AdvanceClock(int64(5 + r.Intn(20)))
+	}
+	if _, ret := sr.final(); !ret {
+		return
+	}
+	time.Sleep(25 * time.Millisecond)
+	w.Quiesce(scenarioTimeout)
+}
+
 func runC04() {
 	nShapes := 1500
 	if run.Thorough() {
@@ -77,5 +106,8 @@ func runC04() {
 			fs = append(fs, c03Fault{pick(r, kinds), r.Intn(6)})
 		}
 		c04Scenario(s, r.Bool(), fs, r.Fork())
+		if n%50 == 7 {
+			c04Heartbeat(genShape(r), r.Fork())
+		}
 	}
 }
